@@ -1327,6 +1327,41 @@ fn est_print(req: &J) -> J {
     }
 }
 
+/// entity manifest: authorization over the store sliced by the manifest vs over the full store (core API; feature entity-manifest)
+fn manifest_slice(req: &J) -> J {
+    use cedar_policy_core::validator::entity_manifest::compute_entity_manifest;
+    use cedar_policy::{Context, EntityUid, Schema, ValidationMode, Validator};
+    use std::str::FromStr;
+    let schema = match Schema::from_cedarschema_str(req["schema"].as_str().unwrap_or("")) { Ok(s) => s.0, Err(e) => return json!({"input_error": e.to_string()}) };
+    let ps = match PolicySet::from_str(req["policies"].as_str().unwrap_or("")) { Ok(p) => p, Err(e) => return json!({"input_error": e.to_string()}) };
+    let v = Validator::new(schema.clone());
+    let res = v.validate(&ps, ValidationMode::Strict);
+    if !res.validation_passed() { return json!({"input_error": format!("policies do not validate: {res}")}); }
+    let ents = match Entities::from_json_value(req["entities"].clone(), Some(&schema)) { Ok(e) => e, Err(e) => return json!({"input_error": e.to_string()}) };
+    let (p, a, r) = match (EntityUid::from_str(req["principal"].as_str().unwrap_or("")), EntityUid::from_str(req["action"].as_str().unwrap_or("")), EntityUid::from_str(req["resource"].as_str().unwrap_or(""))) {
+        (Ok(p), Ok(a), Ok(r)) => (p, a, r), _ => return json!({"input_error": "uids"}) };
+    let cx = match Context::from_json_value(req["context"].clone(), Some((&schema, &a))) { Ok(c) => c, Err(e) => return json!({"input_error": e.to_string()}) };
+    let q = match Request::new(p, a, r, cx, Some(&schema)) { Ok(q) => q, Err(e) => return json!({"input_error": e.to_string()}) };
+    let view = |resp: &cedar_policy::Response| {
+        let mut rs: Vec<String> = resp.diagnostics().reason().map(|p| p.to_string()).collect(); rs.sort();
+        let mut es: Vec<String> = resp.diagnostics().errors().map(|e| match e { cedar_policy::AuthorizationError::PolicyEvaluationError(pe) => pe.policy_id().to_string() }).collect(); es.sort();
+        json!({"decision": format!("{:?}", resp.decision()), "reasons": rs, "errors": es})
+    };
+    let full = view(&Authorizer::new().is_authorized(&q, &ps, &ents));
+    let core_validator: &cedar_policy_core::validator::Validator = v.as_ref();
+    let core_ps: &cedar_policy_core::ast::PolicySet = ps.as_ref();
+    let manifest = match compute_entity_manifest(core_validator, core_ps) { Ok(m) => m, Err(e) => return json!({"full": full, "sliced": {"manifest_error": e.to_string()}}) };
+    let core_ents: &cedar_policy_core::entities::Entities = ents.as_ref();
+    let core_req: &cedar_policy_core::ast::Request = q.as_ref();
+    let sliced = match manifest.slice_entities(core_ents, core_req) { Ok(s) => s, Err(e) => return json!({"full": full, "sliced": {"slice_error": e.to_string()}}) };
+    let kept: Vec<String> = sliced.iter().map(|e| e.uid().to_string()).collect();
+    let core_auth = cedar_policy_core::authorizer::Authorizer::new();
+    let resp = core_auth.is_authorized(core_req.clone(), core_ps, &sliced);
+    let mut rs: Vec<String> = resp.diagnostics.reason.iter().map(|p| p.to_string()).collect(); rs.sort();
+    let mut es: Vec<String> = resp.diagnostics.errors.iter().map(|e| match e { cedar_policy_core::authorizer::AuthorizationError::PolicyEvaluationError { id, .. } => id.to_string() }).collect(); es.sort();
+    json!({"full": full, "sliced": {"decision": format!("{:?}", resp.decision), "reasons": rs, "errors": es}, "kept": kept})
+}
+
 fn handle(req: &J) -> J {
     match req["op"].as_str().unwrap_or("") {
         "eval" => eval(req),
@@ -1351,6 +1386,7 @@ fn handle(req: &J) -> J {
         "proto_roundtrip" => proto_roundtrip(req),
         "permission_query" => permission_query(req),
         "fuzzy" => fuzzy(req),
+        "manifest_slice" => manifest_slice(req),
         "est_print" => est_print(req),
         "ffi_convert" => ffi_convert(req),
         other => json!({"unknown_op": other}),
